@@ -30,7 +30,7 @@ VALUE_CLASSES = {
     "dyadic": [0.5, -1.25, 2.0], "integer": [2, 7, -3], "generic": [0.1, 1 / 3, 1e-3, 123.456, 3.141592653589793], "complex": [1 + 2j, -0.5j],
 }
 NAMESETS = [("a", "b"), ("alpha", "a"), ("x1", "e")]
-NAMESETS_T = [("p0", "p1"), ("p", "pp")]
+NAMESETS_T = [("p0", "p1"), ("p", "pp"), ("n", "x"), ("B", "i")]   # incl. names that collide with declared variables, arrays and loop variables
 
 
 def rename(src, names):
